@@ -1009,6 +1009,17 @@ fn remove_element(l: &Logical, idx: usize) -> Option<Logical> {
 }
 
 pub fn minimise_and_package(plan: &RunPlan, class: String, detail: String, run: u64) -> Violation {
+    let unminimised = json!({
+        "engine": "c06",
+        "registry_name": plan.reg_name,
+        "registry_scale_hex": corpus::encode_hex(&plan.reg),
+        "switches": plan.logical.switches.to_json(),
+        "logical_settings": plan.logical.to_json(),
+        "histories_are_original": true,
+        "responsible": "not analysed (unminimised run)",
+        "executions": plan.execs.iter().map(|e| e.to_json()).collect::<Vec<_>>(),
+        "run": run,
+    });
     let sw = plan.logical.switches.clone();
     let mut reg = plan.reg.clone();
     let mut logical = plan.logical.clone();
@@ -1183,6 +1194,7 @@ pub fn minimise_and_package(plan: &RunPlan, class: String, detail: String, run: 
             "executions": execs.iter().map(|e| e.to_json()).collect::<Vec<_>>(),
             "run": run,
         }),
+        unminimised_replay: Some(unminimised),
     }
 }
 
@@ -1258,7 +1270,172 @@ pub fn check(ctx: &Ctx) -> i32 {
             }
         }
     }
+    // "in another process", with process-wide state in mind: one execution alone in a fresh
+    // process must equal the same execution in a fresh process that has generated the same
+    // registry under other settings before (a static cache would be warm with foreign content)
+    let mut violations = violations;
+    let mut proc_stage = Value::Null;
+    if reports.iter().all(|r| r.violation.is_none()) {
+        match process_history_stage(ctx, &w, full_runs) {
+            Ok((v, mut viol)) => {
+                proc_stage = v;
+                violations.append(&mut viol);
+            }
+            Err(e) => {
+                eprintln!("HARNESS ERROR: process-history stage: {e}");
+                return 2;
+            }
+        }
+    }
+    let cross = json!({"digest_comparison_with_child_processes": cross, "fresh_process_with_and_without_earlier_generation": proc_stage});
     summarise(ctx, reports, cross, violations)
+}
+
+/// The job a child process executes: `sim c06-proc-job <file> <0|1>`.
+pub fn proc_job_doc(reg_name: &str, reg: &PortableRegistry, sw: &Switches, e: &ExecSpec) -> Value {
+    json!({
+        "engine": "c06-proc",
+        "registry_name": reg_name,
+        "registry_scale_hex": corpus::encode_hex(reg),
+        "switches": sw.to_json(),
+        "execution": e.to_json(),
+        "earlier_generations_in_the_same_process": ["same registry, default settings", "same registry, every derive and attribute of the universe registered globally and for every path"],
+    })
+}
+
+/// Child side: print the digest of the compared observations of the job's execution,
+/// optionally after warming the process with generations of the same registry under other settings.
+pub fn proc_job(doc: &Value, warm: bool) -> Result<String, String> {
+    let reg = corpus::decode_hex(doc["registry_scale_hex"].as_str().unwrap_or_default())?;
+    let sw = Switches::from_json(&doc["switches"])?;
+    let e = ExecSpec::from_json(&doc["execution"])?;
+    if warm {
+        let paths = refmodel::named_paths(&reg);
+        let _ = entropy::execution(0x77, || {
+            let plain = Switches::standard().settings(Builders::new());
+            let _ = observe::gen_tokens(&reg, &plain);
+            let mut b = Builders::new();
+            let all_d: Vec<String> = DERIVES.iter().map(|s| s.to_string()).collect();
+            let all_a: Vec<String> = ATTRS.iter().map(|s| s.to_string()).collect();
+            let _ = b.apply(&Op::DerivesAll(all_d.clone()));
+            let _ = b.apply(&Op::AttrsAll(all_a.clone()));
+            for p in &paths {
+                let _ = b.apply(&Op::DerivesFor {
+                    path: p.clone(),
+                    items: all_d.clone(),
+                    recursive: false,
+                });
+                let _ = b.apply(&Op::AttrsFor {
+                    path: p.clone(),
+                    items: all_a.clone(),
+                    recursive: true,
+                });
+            }
+            let heavy = Switches::standard().settings(b);
+            let _ = observe::gen_tokens(&reg, &heavy);
+            let _ = observe::dedup(&reg);
+        });
+    }
+    let (o, _) = run_exec(&reg, &sw, &e);
+    match o {
+        Ok(o) => {
+            let mut d = Digest::new();
+            for (l, v) in o.compared() {
+                d.str(l);
+                d.str(v);
+            }
+            Ok(format!("{:016x}", d.0))
+        }
+        Err(p) => Ok(format!("panic:{p}")),
+    }
+}
+
+fn run_proc_pair(job_path: &std::path::Path) -> Result<(String, String), String> {
+    let exe = std::env::current_exe().map_err(|e| e.to_string())?;
+    let mut out = vec![];
+    for warm in ["0", "1"] {
+        let o = std::process::Command::new(&exe)
+            .arg("c06-proc-job")
+            .arg(job_path)
+            .arg(warm)
+            .output()
+            .map_err(|e| e.to_string())?;
+        if !o.status.success() {
+            return Err(format!(
+                "child failed: {}{}",
+                String::from_utf8_lossy(&o.stdout),
+                String::from_utf8_lossy(&o.stderr)
+            ));
+        }
+        out.push(String::from_utf8_lossy(&o.stdout).trim().to_string());
+    }
+    Ok((out[0].clone(), out[1].clone()))
+}
+
+fn process_history_stage(ctx: &Ctx, w: &World, full_runs: u64) -> Result<(Value, Vec<Violation>), String> {
+    let n = match ctx.tier {
+        Tier::Quick => ctx.scaled(24),
+        Tier::Thorough => ctx.scaled(600),
+    };
+    let dir = ctx.verif_dir.join("sim").join("target").join(format!("c06proc-{}", std::process::id()));
+    std::fs::create_dir_all(&dir).map_err(|e| e.to_string())?;
+    let results = runner::par_runs(n, ctx.workers, |i| {
+        // runs from a separate index range, small registries only
+        let run = 1_000_000 + full_runs + i;
+        let plan = plan_run(w, ctx.seed, run, ctx.tier, full_runs);
+        if plan.reg.types.len() > 300 {
+            return Ok(None);
+        }
+        let doc = proc_job_doc(&plan.reg_name, &plan.reg, &plan.logical.switches, &plan.execs[0]);
+        let path = dir.join(format!("job{i}.json"));
+        std::fs::write(&path, doc.to_string()).map_err(|e| e.to_string())?;
+        let r = run_proc_pair(&path);
+        let _ = std::fs::remove_file(&path);
+        r.map(|(alone, warm)| Some((run, plan.reg_name.clone(), doc, alone, warm)))
+    });
+    let _ = std::fs::remove_dir_all(&dir);
+    let mut compared = 0u64;
+    let mut violations = vec![];
+    for r in results {
+        match r? {
+            None => {}
+            Some((run, reg_name, doc, alone, warm)) => {
+                compared += 1;
+                if alone != warm && violations.len() < 2 {
+                    violations.push(Violation {
+                        property: "C06",
+                        class: "differs:fresh-process-vs-process-with-earlier-generation".into(),
+                        key: format!("process-history|{reg_name}"),
+                        summary: format!(
+                            "C06 run {run} on {reg_name}: the execution alone in a fresh process gives digest {alone}, the same execution in a fresh process that generated the same registry under other settings before gives {warm}: state survives a generation process-wide"
+                        ),
+                        replay: doc,
+                        unminimised_replay: None,
+                    });
+                }
+            }
+        }
+    }
+    Ok((json!({"runs_compared (2 child processes each)": compared}), violations))
+}
+
+pub fn replay_proc(doc: &Value) -> i32 {
+    let path = std::path::PathBuf::from(doc["_path"].as_str().unwrap_or_default());
+    match run_proc_pair(&path) {
+        Ok((alone, warm)) if alone != warm => {
+            println!("alone in a fresh process: {alone}; after earlier generations in the same process: {warm}");
+            println!("VIOLATION property=C06 replay={}", path.display());
+            1
+        }
+        Ok(_) => {
+            println!("replay: no violation reproduced");
+            0
+        }
+        Err(e) => {
+            eprintln!("HARNESS ERROR: {e}");
+            2
+        }
+    }
 }
 
 fn summarise(ctx: &Ctx, reports: Vec<RunReport>, cross: Value, mut violations: Vec<Violation>) -> i32 {
